@@ -105,7 +105,7 @@ func seqCases(prop, tier string, seed uint64) []Case {
 			}
 			p.Comps = append(p.Comps, "a", "ab", "a_", "a%")
 		} else if prop == "C12" {
-			p.Comps = []string{"a", "ab", "a_", "a%", "a b", "a.b", "ä", "aä", "%", "_", "[ab]", "a[", "a*", "a?", ".a"}
+			p.Comps = []string{"a", "ab", "a_", "a%", "a b", "a.b", "ä", "aä", "%", "_", "[ab]", "a[", "a*", "a?", ".a", "A", "AB", "A_"}
 		}
 		pb, _ := json.Marshal(p)
 		cases = append(cases, Case{ID: fmt.Sprintf("%s-h%04d", strings.ToLower(prop), i), Seed: subSeed(seed, prop, tier, fmt.Sprint(i)), Kind: "random", P: pb})
